@@ -953,9 +953,9 @@ def remap_by_types(
             ]
             try:
                 dict_dataclass = make_dataclass("dict_dataclass", fields)
-            except (TypeError, ValueError):
-                # Keys that can't be field names (not identifiers, keywords, etc.): this is
-                # still a fine dictionary, we just have no type information for it.
+            except (TypeError, ValueError, SyntaxError):
+                # Keys that can't be field names (not identifiers, keywords, `self`, etc.): this
+                # is still a fine dictionary, we just have no type information for it.
                 return t_node
 
             self._found_types[t_node] = dict_dataclass
@@ -983,9 +983,12 @@ def remap_by_types(
                 self._found_types[node] = self.lookup_type(value)
             elif ((dc := self.lookup_type(t_node.value)) is not None) and is_dataclass(dc):
                 dc_types = get_type_hints(dc)
-                if node.attr not in dc_types:
+                if node.attr in dc_types:
+                    self._found_types[node] = dc_types[node.attr]
+                elif not callable(getattr(dc, node.attr, None)):
                     raise ValueError(f"Key {node.attr} not found in dataclass/dictionary {dc}")
-                self._found_types[node] = dc_types[node.attr]
+                # (a method of a dataclass is not one of its fields: the call is dealt with
+                # like any other typed method call)
             return t_node
 
     tt = type_transformer(o_stream)
